@@ -50,21 +50,26 @@ structure SetSt where
   lastRuleId : PyVal := .none
 deriving Inhabited
 
-/-- one iteration of `for pol in policies`; the Boolean is `true` on `break` -/
-def stepChild (algo : String) (s : SetSt) (pid : PyVal) (res : Raw) : SetSt × Bool :=
-  let s :=
-    match res.rid with
-    | .str r => if r != "" then { s with lastRuleId := .str r } else s
-    | _ => s
+/-- `if isinstance(rid, str) and rid: last_rule_id = rid` -/
+def noteRuleId (s : SetSt) (res : Raw) : SetSt :=
+  match res.rid with
+  | .str r => if r != "" then { s with lastRuleId := .str r } else s
+  | _ => s
+
+/-- the rest of one iteration of `for pol in policies`; the Boolean is `true` on `break` -/
+def combineChild (algo : String) (s : SetSt) (pid : PyVal) (res : Raw) : SetSt × Bool :=
   if !isApplicable res then (s, false)
   else if algo == "first-applicable" then ({ s with first := some (res, pid) }, true)
   else if res.decision == "deny" then
-    let s := { s with anyDeny := true, deny := if s.deny.isNone then some (res, pid) else s.deny }
-    (s, algo == "deny-overrides")
+    ({ s with anyDeny := true, deny := if s.deny.isNone then some (res, pid) else s.deny }, algo == "deny-overrides")
   else if res.decision == "permit" then
-    let s := { s with anyPermit := true, permit := if s.permit.isNone then some (res, pid) else s.permit }
-    (s, algo == "permit-overrides")
+    ({ s with anyPermit := true, permit := if s.permit.isNone then some (res, pid) else s.permit },
+     algo == "permit-overrides")
   else (s, false)
+
+/-- one iteration of `for pol in policies`; the Boolean is `true` on `break` -/
+def stepChild (algo : String) (s : SetSt) (pid : PyVal) (res : Raw) : SetSt × Bool :=
+  combineChild algo (noteRuleId s res) pid res
 
 def noMatch (lastRuleId : PyVal) : Raw :=
   { decision := "deny", reason := "no_match", ruleId := .none, lastRuleId := lastRuleId,
@@ -77,6 +82,9 @@ def denyOut (res : Raw) (pid : PyVal) : Raw :=
 def permitOut (res : Raw) (pid : PyVal) : Raw :=
   { res with policyId := pid, reason := if res.reason == "" then "matched" else res.reason }
 
+/-- `flag and x is not None` guards of the final block -/
+def pick (flag : Bool) (x : Option (Raw × PyVal)) : Option (Raw × PyVal) := if flag then x else Option.none
+
 /-- the block after the loop -/
 def finaliseSet (algo : String) (s : SetSt) : Raw :=
   if algo == "first-applicable" then
@@ -84,15 +92,19 @@ def finaliseSet (algo : String) (s : SetSt) : Raw :=
     | some (res, pid) => { res with policyId := pid }
     | Option.none => noMatch s.lastRuleId
   else if algo == "deny-overrides" then
-    match s.anyDeny, s.deny, s.anyPermit, s.permit with
-    | true, some (res, pid), _, _ => denyOut res pid
-    | _, _, true, some (res, pid) => permitOut res pid
-    | _, _, _, _ => noMatch s.lastRuleId
+    match pick s.anyDeny s.deny with
+    | some (res, pid) => denyOut res pid
+    | Option.none =>
+      match pick s.anyPermit s.permit with
+      | some (res, pid) => permitOut res pid
+      | Option.none => noMatch s.lastRuleId
   else
-    match s.anyPermit, s.permit, s.anyDeny, s.deny with
-    | true, some (res, pid), _, _ => permitOut res pid
-    | _, _, true, some (res, pid) => denyOut res pid
-    | _, _, _, _ => noMatch s.lastRuleId
+    match pick s.anyPermit s.permit with
+    | some (res, pid) => permitOut res pid
+    | Option.none =>
+      match pick s.anyDeny s.deny with
+      | some (res, pid) => denyOut res pid
+      | Option.none => noMatch s.lastRuleId
 
 mutual
 /-- `_decide_single` -/
